@@ -206,12 +206,17 @@ def matches(matcher: dict, kind: str, detail: dict) -> bool:
 
 
 def load_known(prop: str) -> list[dict]:
-    p = os.path.join(VERIF, 'known_findings.json')
-    if not os.path.exists(p):
-        return []
-    with open(p) as fh:
-        data = json.load(fh)
-    return [e for e in data.get('findings', []) if e.get('property') == prop]
+    """known_findings.json (+ known_findings.d/*.json while a property is being built)."""
+    import glob
+    out = []
+    paths = [os.path.join(VERIF, 'known_findings.json')] + sorted(glob.glob(os.path.join(VERIF, 'known_findings.d', '*.json')))
+    for p in paths:
+        if not os.path.exists(p):
+            continue
+        with open(p) as fh:
+            data = json.load(fh)
+        out += [e for e in data.get('findings', []) if e.get('property') == prop]
+    return out
 
 
 # --------------------------------------------------------------------------- build
@@ -273,11 +278,26 @@ class BuildLock:
 
 
 def ensure_makefile():
-    mk = os.path.join(COQ, 'Makefile')
+    """_CoqProject is generated from the files present (lib/, gen/, C*/), then coq_makefile."""
+    import glob
+    files = []
+    for pat in ('lib/*.v', 'gen/*.v', 'C[0-9]*/*.v'):
+        files += sorted(os.path.relpath(p, COQ) for p in glob.glob(os.path.join(COQ, pat)))
+    dirs = sorted({f.split('/')[0] for f in files if f[0] == 'C'})
+    txt = '-Q lib Falcon.lib\n-Q gen Falcon.gen\n' + ''.join('-Q %s Falcon.%s\n' % (d, d) for d in dirs)
+    txt += '-arg -w -arg -notation-overridden,-deprecated-hint-without-locality,-deprecated-instance-without-locality\n'
+    txt += '\n'.join(files) + '\n'
     cp = os.path.join(COQ, '_CoqProject')
-    if not os.path.exists(mk) or os.path.getmtime(mk) < os.path.getmtime(cp):
+    mk = os.path.join(COQ, 'Makefile')
+    old = open(cp).read() if os.path.exists(cp) else None
+    if old != txt or not os.path.exists(mk):
+        with open(cp, 'w') as fh:
+            fh.write(txt)
         subprocess.run(['coq_makefile', '-f', '_CoqProject', '-o', 'Makefile'], cwd=COQ, check=True,
                        stdout=subprocess.DEVNULL)
+
+
+JOBS = os.environ.get('VERIF_JOBS', '8')
 
 
 def regen_consts(ctx: Ctx):
@@ -305,7 +325,7 @@ def build(ctx: Ctx, clean: bool = False):
                 if f.endswith(('.vo', '.vok', '.vos', '.glob', '.aux')) or f.startswith('.') and f.endswith('.aux'):
                     os.remove(os.path.join(pdir, f))
         # 1. model + spec + extraction
-        code, out = _run(['make', '-j8', '%s/Extract.vo' % prop], cwd=COQ, timeout=1500)
+        code, out = _run(['make', '-j' + JOBS, '%s/Extract.vo' % prop], cwd=COQ, timeout=1500)
         if code != 0:
             ctx.model_broken = 'coq model/extraction build failed:\n' + out[-3000:]
             return
@@ -334,7 +354,7 @@ def build(ctx: Ctx, clean: bool = False):
             p = os.path.join(pdir, 'Props' + ext)
             if os.path.exists(p):
                 os.remove(p)
-        code, out = _run(['make', '-j8', '%s/Props.vo' % prop], cwd=COQ, timeout=2400)
+        code, out = _run(['make', '-j' + JOBS, '%s/Props.vo' % prop], cwd=COQ, timeout=2400)
         with open(os.path.join(ctx.out_dir, 'props_build.log'), 'w') as fh:
             fh.write(out)
         if code != 0:
@@ -464,3 +484,15 @@ def finish(ctx: Ctx) -> int:
         ctx.prop, ctx.tier, ctx.seed, ctx.evaluations, len(ctx.nontrivial), n_ok, n_thm,
         len(ctx.violations), len(ctx.known_seen), time.time() - ctx.t0))
     return 1 if ctx.violations else 0
+
+
+def corpus(prop: str) -> list[dict]:
+    """Minimised regression inputs committed under corpus/Cnn/*.json (run first)."""
+    import glob
+    out = []
+    for p in sorted(glob.glob(os.path.join(VERIF, 'corpus', prop, '*.json'))):
+        with open(p) as fh:
+            o = json.load(fh)
+        o['_file'] = os.path.relpath(p, VERIF)
+        out.append(o)
+    return out
